@@ -67,6 +67,24 @@ func reach(x *xmss.XMSS, c *crashCase) error {
 				return err
 			}
 			cur++
+		case "mixed+refusals":
+			// like mixed, but the caller also makes calls that are refused (too high, rewinds) and carries on
+			switch next(4) {
+			case 0:
+				if _, err := x.Sign(msgAt(c.Seed, cur)); err != nil {
+					return err
+				}
+				cur++
+			case 1:
+				cur += 1 + next(c.Crash-cur)
+				x.SetIndex(cur)
+			case 2:
+				ev.Try(func() { x.SetIndex(uint32(1)<<uint(c.H) + next(3)) })
+			default:
+				if cur > 0 {
+					ev.Try(func() { x.SetIndex(cur - 1 - next(cur)%2) })
+				}
+			}
 		default: // mixed
 			if next(2) == 0 {
 				if _, err := x.Sign(msgAt(c.Seed, cur)); err != nil {
@@ -203,12 +221,12 @@ func firstDiff(a, b []byte) int {
 	return -1
 }
 
-var ways = []string{"sign", "jump", "mixed"}
+var ways = []string{"sign", "jump", "mixed", "mixed+refusals"}
 var routes = []string{"seed", "extended-seed", "mnemonic"}
 
 func TestCrashRebuildReal(t *testing.T) {
 	r := ev.New(t, prop, "TestCrashRebuildReal")
-	r.Rule("real hashing, h=4 x 3 hash functions and h=6 x one hash chosen by VERIF_SEED (thorough: h in {4,6,8} x 3 hashes): EVERY crash index i in [0,2^h-1] x 3 ways the original reaches i (i signatures / one SetIndex / a drawn mix) with the rebuild route rotating over {seed, extended seed, mnemonic}; rebuilt = constructor + SetIndex(i); oracle: signature streams identical to the end of life and identical refusal afterwards (snapshot equality used as a sufficient shortcut, observable comparison forced on a sample and whenever snapshots differ); non-trivial = 0 < i reached by a way other than a bare SetIndex on a fresh key, distinct by enumeration (hash,h,i,way)")
+	r.Rule("real hashing, h=4 x 3 hash functions and h=6 x one hash chosen by VERIF_SEED (thorough: h in {4,6,8} x 3 hashes): EVERY crash index i in [0,2^h-1] x 4 ways the original reaches i (i signatures / one SetIndex / a drawn mix / a drawn mix that also contains refused calls - index too high, rewinds - which the caller survives) with the rebuild route rotating over {seed, extended seed, mnemonic}; rebuilt = constructor + SetIndex(i); oracle: signature streams identical to the end of life and identical refusal afterwards (snapshot equality used as a sufficient shortcut, observable comparison forced on a sample and whenever snapshots differ); non-trivial = 0 < i reached by a way other than a bare SetIndex on a fresh key, distinct by enumeration (hash,h,i,way)")
 	r.Assume("snapshot shortcut: the XMSS object has no state beyond what VerifSnapshot serialises (secret-key bytes incl. index, and every BDS field), and signing is deterministic")
 	hs := []int{4, 6}
 	if r.Thorough() {
@@ -223,6 +241,9 @@ func TestCrashRebuildReal(t *testing.T) {
 			seed := pu.DetBytes(r.Seed()*131+uint64(hf)*7+uint64(h), 48)
 			for i := uint32(0); i < 1<<uint(h); i++ {
 				for wi, w := range ways {
+					if !r.Thorough() && wi == int(i+1)%4 && wi != 3 {
+						continue // quick: three of the four ways per crash index, rotating (the refusal way always)
+					}
 					n++
 					if !r.Mine(n) {
 						continue
@@ -241,7 +262,7 @@ func TestCrashRebuildReal(t *testing.T) {
 					r.Check(t, key == "", key, c, "%s", msg)
 				}
 			}
-			r.Exhaustive(fmt.Sprintf("every crash index of h=%d (%s) x 3 ways, real hashing", h, pu.HashName(hf)))
+			r.Exhaustive(fmt.Sprintf("every crash index of h=%d (%s) x 4 ways, real hashing", h, pu.HashName(hf)))
 		}
 	}
 }
@@ -267,6 +288,9 @@ func TestCrashRebuildSeam(t *testing.T) {
 				continue
 			}
 			w := "mixed"
+			if n%4 == 1 {
+				w = "mixed+refusals"
+			}
 			if n%3 == 0 {
 				w = "sign"
 				if i > 300 {
